@@ -41,6 +41,13 @@ def build_ids(defs: List[List[str]], imports: List[str], ref: Dict[str, Any], or
 def build_sn(sn: Dict[str, bool]) -> List[str]:
     a = og.Layer("BASE-VARIANT", "L.A", "A")
     v = og.Layer("ECU-VARIANT", "L.V", "V")
+    g = og.Layer("FUNCTIONAL-GROUP", "L.G", "G")
+    if sn["gdop"]:
+        g.dops.append(og.dop("G.dop", "n", og.dct_standard("A_UINT32", 32)).replace("<SHORT-NAME>n</SHORT-NAME>",
+                                                                                   "<SHORT-NAME>n</SHORT-NAME><LONG-NAME>G.dop</LONG-NAME>", 1))
+        g.requests.append(og.request("RQ.G", "RQG", [og.p_const8("sid", 0x31, bytepos=0), og.p_value("p", None, dop_snref="n", bytepos=1)]))
+        g.diag_comms.append(og.service("DC.G", "svcG", "RQ.G"))
+    a.parent_refs.append(og.parent_ref("L.G", "FUNCTIONAL-GROUP", "C1"))
     if sn["adop"]:
         a.dops.append(og.dop("A.dop", "n", og.dct_standard("A_UINT32", 8)).replace("<SHORT-NAME>n</SHORT-NAME>",
                                                                                   "<SHORT-NAME>n</SHORT-NAME><LONG-NAME>A.dop</LONG-NAME>", 1))
@@ -56,7 +63,7 @@ def build_sn(sn: Dict[str, bool]) -> List[str]:
     v.requests.append(og.request("RQ.V", "RQV", [og.p_const8("sid", 0x2E, bytepos=0), og.p_value("p", None, dop_snref="n", bytepos=1)]))
     v.diag_comms.append(og.service("DC.V", "svcV", "RQ.V"))
     v.parent_refs.append(og.parent_ref("L.A", "BASE-VARIANT", "C1", ni_dops=["n"] if sn["ni"] else []))
-    return [og.container("C1", "C1", [a, v])]
+    return [og.container("C1", "C1", [g, a, v])]
 
 
 def _init(repo: str) -> None:
@@ -130,6 +137,9 @@ def process(recs: List[Dict[str, Any]]) -> Dict[str, Any]:
             a, v = db.diag_layers.A, db.diag_layers.V
             pa = a.diag_layer_raw.requests.RQA.parameters.p
             pv = v.diag_layer_raw.requests.RQV.parameters.p
+            pg = db.diag_layers.G.diag_layer_raw.requests.RQG.parameters.p if sn["gdop"] else None
+            if pg is not None and pg.dop.long_name != rec["g"]:
+                fail("snref_bound_to_wrong_object", {**base, "where": "G", "expected": rec["g"], "bound_to": pg.dop.long_name})
             if pa.dop.long_name != rec["a"]:
                 fail("snref_bound_to_wrong_object", {**base, "where": "A", "expected": rec["a"], "bound_to": pa.dop.long_name})
             if pv.dop.long_name != rec["v"]:
@@ -140,6 +150,8 @@ def process(recs: List[Dict[str, Any]]) -> Dict[str, Any]:
                 retarget_snrefs(db, v)
                 if pa.dop.long_name != rec["v"]:
                     fail("retarget_did_not_rebind", {**base, "expected": rec["v"], "bound_to": pa.dop.long_name})
+                if pg is not None and pg.dop.long_name != rec["v"]:
+                    fail("retarget_did_not_rebind", {**base, "where": "grandparent", "expected": rec["v"], "bound_to": pg.dop.long_name})
                 retarget_snrefs(db, a)
                 if pa.dop.long_name != rec["a"]:
                     fail("retarget_back_did_not_rebind", {**base, "expected": rec["a"], "bound_to": pa.dop.long_name})
